@@ -1,0 +1,21 @@
+//go:build verif
+
+package kafka
+
+import "errors"
+
+// Helpers of the Conn / Transport-conn event hooks (C.* and T.* events; build tag `verif` only).
+
+// verifMuxErr reduces the outcome of reading a response body to the classes the model knows:
+// "ok", "kafka" (a broker error code: the frame was consumed and the conn stays usable) and "io"
+// (anything else: the conn is closed).
+func verifMuxErr(err error) string {
+	if err == nil {
+		return "ok"
+	}
+	var k Error
+	if errors.As(err, &k) {
+		return "kafka"
+	}
+	return "io"
+}
